@@ -2497,6 +2497,9 @@ impl Server {
             }
             _ => false,
         };
+        if parts.len() == 5 && !with_scores {
+            return Ok(RespFrame::error("ERR syntax error"));
+        }
         
         // Get range
         let members = self.storage.zrange(db, key, start, stop, false)?;
@@ -2561,6 +2564,9 @@ impl Server {
             }
             _ => false,
         };
+        if parts.len() == 5 && !with_scores {
+            return Ok(RespFrame::error("ERR syntax error"));
+        }
         
         // Get range in reverse order
         let members = self.storage.zrange(db, key, start, stop, true)?;
@@ -2625,6 +2631,9 @@ impl Server {
             }
             _ => false,
         };
+        if parts.len() == 5 && !with_scores {
+            return Ok(RespFrame::error("ERR syntax error"));
+        }
         
         // Get range by score
         let members = self.storage.zrangebyscore(db, key, min_score, max_score, false)?;
@@ -2689,6 +2698,9 @@ impl Server {
             }
             _ => false,
         };
+        if parts.len() == 5 && !with_scores {
+            return Ok(RespFrame::error("ERR syntax error"));
+        }
         
         // Get range by score in reverse order
         let members = self.storage.zrangebyscore(db, key, min_score, max_score, true)?;
